@@ -268,10 +268,10 @@ pub fn merkle_replay(inp: &str, outp: &str, seed: u64) -> Result<()> {
             // sorted-rank positions, as the chain produces them
             let lh = leaf::leaf_hash(&w.lto, &w.ltc, w.asset, w.input);
             let mut cur = lh;
-            // tie class (every third case with a path): one level carries a sibling EQUAL to the running hash (duplicate
+            // tie class (every second case with a path, drawn): one level carries a sibling EQUAL to the running hash (duplicate
             // child / identical subtrees).  The sorted rank is the first of the two equal slots, the fold is unchanged,
             // and both native verifiers, from_unsorted and the circuit must treat the path like any other valid one.
-            let tie_level = if i % 3 == 0 && depth.min(MAXD) > 0 { Some(rng.gen_range(0..depth.min(MAXD))) } else { None };
+            let tie_level = if depth.min(MAXD) > 0 && rng.gen_bool(0.5) { Some(rng.gen_range(0..depth.min(MAXD))) } else { None };
             for l in 0..depth.min(MAXD) {
                 if tie_level == Some(l) { let k = rng.gen_range(0..3); w.sibs[l][k] = cur; }
                 let mut s = [bytes(&w.sibs[l][0]), bytes(&w.sibs[l][1]), bytes(&w.sibs[l][2])];
